@@ -8,17 +8,26 @@ import common as c
 
 PID = "C17"
 MANIFEST = {
-    "text": "23 Coq theorems over the unit table regenerated from the built crate on every run: exhaustive (vm_compute, "
+    "text": "36 Coq theorems over the unit table regenerated from the built crate on every run: exhaustive (vm_compute, "
             "bound = the table) identifier resolution / no duplicates / alias / ambiguity / category / prefix-ratio / "
             "well-formedness theorems; unbounded theorems on resolve_unit for every string and table; self-conversion "
             "identity in every arithmetic (bit-exact in binary64); exact-rational there-and-back and composition laws about "
-            "the same conversion code that is run in binary64 against units::convert and the convert built-in; a Flocq "
-            "relative-error bound (4 roundings of 2^-53) for binary64 there-and-back between linear units",
+            "the same conversion code that is run in binary64 against units::convert and the convert built-in; binary64 "
+            "(Flocq) error bounds for EVERY conversion kind, stated down to the convert built-in on identifiers: "
+            "there-and-back <= ((1+2^-53)^4-1)|v| linear, (qq^4-1)|v| with a reciprocal unit, absolute "
+            "2^-53(1+1/1024)(A|v|+B) for the temperature kind (9 constant pairs), composition A>B>C vs A>C <= "
+            "(qq^6-1)|fl(A>C)| linear/reciprocal and an absolute bound for temperature (27 constant pairs); the range "
+            "hypotheses are a decidable exponent condition proved sufficient and proved by vm_compute for every pair / "
+            "triple of linear or reciprocal units of one category of the table, for all valid v with 2^-40 <= |v| <= 2^40 "
+            "(temperature: every finite |v| <= 2^1000); the implementation-level search uses exactly the proved bounds as "
+            "tolerances (exact rational comparison; the temperature constants are compared with the Coq tables every run)",
     "note": "trusted: Coq kernel + vm_compute; harness dump-units (reflective dump of get_all_units()); the hand "
             "transcription of resolve_unit/convert (validated by the UNITS/RESOLVE/LOWER/BUILTIN correspondence streams); "
-            "Rust to_lowercase modelled only on ASCII + the dumped non-ASCII characters; binary64 bounds for reciprocal / "
-            "temperature kinds and for composition are tested (impl-level search), not proved; axioms: none except the "
-            "allow-listed real-number axioms under the Flocq theorem",
+            "Rust to_lowercase modelled only on ASCII + the dumped non-ASCII characters; PARTIAL: the float theorems for "
+            "the linear/reciprocal kinds cover 2^-40 <= |v| <= 2^40 (zero: exact over Q only; outside the window the search "
+            "falls back to 4/6 ulp, counted in the evidence); mixed-kind categories do not exist in the table (proved "
+            "exhaustively) and are not covered; the prefix-ratio law is tested at 2 ulp, its binary64 bound is not proved; "
+            "axioms: none except the allow-listed real-number/classical axioms under the Flocq theorems",
     "design_ref": "notes/C17.md (DESIGN.md section 6 C17)",
 }
 
